@@ -1,6 +1,7 @@
 /-
   Line-protocol handlers for the encoded-stream ops (harness/ops_utfstream.cpp):
     utf.detect <hex bytes>                                   -> <type> <offset>
+    utf.detects <pre> <skipBom> <hex bytes>                  -> <type> <stream position relative to the document start>
     utf.read <N> <wo> <pol> <mark> <enc> <hex bytes>          -> <type> <results S/D/E/H…> <units>
     utf.write <type> <bom:0|1> <pol> <wi> <units;units;…>     -> <codes s/i/e…> <hex bytes>
 -/
@@ -19,6 +20,22 @@ def handle (toks : List String) (impl : Option String) : Option (String × Strin
     let bs ← parseBytes hex
     let (t, off) := detect bs
     pure (s!"{typeName t} {off}", "nospec")
+  -- the istream overload: looks at the first 128 bytes from the CURRENT position, leaves the stream behind the BOM (skip) or where it was
+  | ["utf.detects", _pre, skip, hex] => do
+    let bs ← parseBytes hex
+    let (t, off) := detect (bs.take 128)
+    let ans := s!"{typeName t} {if skip == "1" then off else 0}"
+    -- Spec side: the byte order mark the document starts with (the longest one of the standard table), if any
+    let bom : Option UtfType := [UtfType.utf32le, .utf32be, .utf8, .utf16le, .utf16be].find? (fun e => (specBom e).isPrefixOf bs)
+    let wantPos := if skip == "1" then (match bom with | some e => (specBom e).length | none => 0) else 0
+    let v := match impl.map (·.splitOn " ") with
+      | some [ty, pos] =>
+        if pos != toString wantPos then s!"bad:stream_left_at_{pos}_instead_of_{wantPos}_relative_to_where_detection_started"
+        else match bom with
+          | some e => if ty == typeName e then "ok" else s!"bad:BOM_of_{typeName e}_detected_as_{ty}"
+          | none => "nospec"
+      | _ => "nospec"
+    pure (ans, v)
   | ["utf.read", n, wo, pol, mark, enc, hex] => do
     let n ← n.toNat?; let wo ← wo.toNat?; let pol ← parsePol pol; let mark ← parseMark mark
     let enc ← parseType enc; let bs ← parseBytes hex
